@@ -71,11 +71,12 @@ def join(
     key_paths = []
     for pp in paths_in:
         with new_dataset(pp) as dsa:
-            # sorting key
-            key = "_".join([dsa.config["experiment"]["date"],
-                            dsa.config["experiment"]["time"],
-                            str(dsa.config["experiment"]["run index"])
-                            ])
+            # sorting key (a tuple, compared item by item: a joined string
+            # would sort "12:00:00.50_1" before "12:00:00_1")
+            key = (dsa.config["experiment"]["date"],
+                   dsa.config["experiment"]["time"],
+                   dsa.config["experiment"]["run index"],
+                   )
             key_paths.append((key, pp))
     sorted_paths = [p[1] for p in sorted(key_paths, key=lambda x: x[0])]
 
